@@ -24,6 +24,9 @@ CHECKS = {
 
 PENDING = {}
 
+REGION = ('runtime monitoring: offline region-agreement checker over recorded '
+          'conversions vs an executable reference model')
+
 
 def main():
     ids = [f'C{n:02d}' for n in range(1, 19)]
